@@ -161,7 +161,7 @@ def alphabet(nh, delayed):
             ops += [(2, via, 1, 1, 0), (3, via, 0, 1, 0)]
         return ops
     for via in hosts + [nh]:
-        for tgt, c in ((0, 0), (1, 0), (2, 0), (2, 2), (3, 0)):
+        for tgt, c in ((0, 0), (1, 0), (2, 0), (2, 2), (3, 0), (5, 0)):
             ops.append((0, via, c, tgt, 0))
         ops += [(0, via, 0, 0, 1), (0, via, 0, 1, 1)]
     for via in hosts:
@@ -169,6 +169,7 @@ def alphabet(nh, delayed):
             ops += [(1, via, c, 0, 0), (2, via, c, 1, 0), (3, via, c, 1, 0), (5, via, c, 0, 0)]
         ops += [(2, via, 0, 0, 0), (4, via, 0, 1, 0)]
         ops += [(2, via, 1, 2, 0), (2, via, 2, 2, 0)]        # a client enters the room named like client 0's session id
+        ops += [(2, via, 2, 0, 0)]                           # client 2 enters r2
     for c in range(NCLIENTS):
         ops += [(6, 0, c, 0, 0), (6, 0, c, 1, 0)]
     return ops
@@ -210,7 +211,7 @@ def h(t, part):
             tag = 'e%d' % k
 
             def target(sids):
-                return [None, 'room', sids[c], ['room', 'r2'], 'r2'][tgt]
+                return [None, 'room', sids[c], ['room', 'r2'], 'r2', ['nobody-here', 'r2', 'room']][tgt]
 
             def skipped(sids):
                 return sids[(c + 1) % NCLIENTS] if skip else None
